@@ -35,19 +35,21 @@ type vSrvScanner struct {
 }
 
 type vHBase struct {
-	rows      []vRow
-	bounds    [][]byte // region boundaries b1<b2<..; region i = [bounds[i-1], bounds[i])
-	regs      []hrpc.RegionInfo
-	open      []*vSrvScanner // scanners currently open on the server
-	nextID    uint64
-	requests  int
-	failAt    int // the request with this ordinal fails with a non-retryable error (0 = never)
-	opened    int
-	closes    int
-	badUse    string
-	maxResp   int // responses per region scanner before the server delivers everything left
-	served    int
-	earlyStop bool // the server may declare the scan finished while a region scanner is open
+	rows        []vRow
+	bounds      [][]byte // region boundaries b1<b2<..; region i = [bounds[i-1], bounds[i])
+	regs        []hrpc.RegionInfo
+	open        []*vSrvScanner // scanners currently open on the server
+	nextID      uint64
+	requests    int
+	failAt      int // the request with this ordinal fails with a non-retryable error (0 = never)
+	opened      int
+	closes      int
+	badUse      string
+	maxResp     int // responses per region scanner before the server delivers everything left
+	served      int
+	earlyStop   bool // the server may declare the scan finished while a region scanner is open
+	silentAfter int  // the server stops answering after this many requests (0 = never)
+	never       chan struct{}
 }
 
 var vErrApp = errors.New("verif: application error")
@@ -101,6 +103,15 @@ func (h *vHBase) deliverable(s *vSrvScanner, i int) bool {
 func (h *vHBase) SendRPC(rpc hrpc.Call) (proto.Message, error) {
 	if err := rpc.Context().Err(); err != nil {
 		return nil, err
+	}
+	if h.silentAfter > 0 && h.requests >= h.silentAfter {
+		// the server has stopped answering: only the request's own context ends the wait
+		h.requests++
+		select {
+		case <-rpc.Context().Done():
+			return nil, rpc.Context().Err()
+		case <-h.never:
+		}
 	}
 	scan, ok := rpc.(*hrpc.Scan)
 	if !ok {
@@ -410,4 +421,37 @@ func VerifScanEndings() {
 	verifObserveInt("opened", h.opened)
 	verifObserveInt("closes", h.closes)
 	verifReach("ended")
+}
+
+// VerifCancelScan (C13): a scan whose server goes silent while a region scanner is open:
+// Next returns the context error promptly when the scan's context is cancelled, whether the
+// cancellation comes between two fetches or during one.
+func VerifCancelScan() {
+	verifFreezeTime(true)
+	h := &vHBase{maxResp: 0, never: make(chan struct{}), silentAfter: 1}
+	h.rows = []vRow{{key: []byte("a"), ncells: 1}, {key: []byte("b"), ncells: 1}, {key: []byte("c"), ncells: 1}}
+	h.regs = []hrpc.RegionInfo{vMkRegion(0, 1, nil, nil)}
+	ctx, cancel := context.WithCancel(context.Background())
+	sc := newScanner(h, vNewScan(ctx, nil, nil, false, false), vLogger())
+	r, err := sc.Next()
+	verifAssert(err == nil && r != nil, "the first row arrives while the server still answers")
+	during := verifBool()
+	if !during {
+		cancel() // between two fetches
+	}
+	var nerr error
+	done := false
+	go func() {
+		_, nerr = sc.Next()
+		done = true
+	}()
+	verifQuiesce()
+	if during {
+		verifAssert(!done, "Next is blocked on the silent server")
+		cancel()
+		verifQuiesce()
+	}
+	verifAssert(done, "Next returns once the scan's context is cancelled, although the server is silent")
+	verifAssert(nerr == context.Canceled, "it returns the context's error")
+	verifReach("cancelled")
 }
